@@ -385,6 +385,21 @@ def handleRobust (focus : String) (c : Case) : String := Id.run do
             if res == "ok" then acc := { acc with mon := acc.mon.push "fit-Ok-without-initial-residuals" }
   return acc.render s!"{tag0}/{what}/{fitTag}"
 
+/-- C08: invalid model specifications (one injected defect): no stage may panic or hang; the model
+builder's answer itself is C15's business and only recorded in the tag -/
+def handleRobustSpec (c : Case) : String := Id.run do
+  let mut acc : Acc := { nontrivial := true }
+  let mut tag := s!"defect{attrStr c.header "defect"}"
+  for l in c.body do
+    if l.getD 0 "" == "outcome" then
+      acc := { acc with compared := acc.compared + 1 }
+      let stage := l.getD 1 ""
+      let res := l.getD 2 ""
+      tag := tag ++ s!"/{stage}-{res}"
+      if res == "panic" || res == "hang" then
+        acc := { acc with mon := acc.mon.push s!"{stage}-{res}-for-an-invalid-model-specification:{(l.getD 3 "").take 100}" }
+  return acc.render tag
+
 end Varpro.Drv
 
 namespace Varpro.Drv
